@@ -97,6 +97,49 @@ Definition aot_push (a : item) (t : tbl) : item :=
 Definition doc_root_new : tbl := Tbl [] decor_default false false (Some 0%N) None.
 (* From<Table> for DocumentMut: root = Item::Table(table), trailing empty *)
 
+(* ---- construction terms: the closure of the constructors above ---------------------------------
+   A term is a sequence of API calls written as a tree; `eval_*` runs it.  The observation commands
+   (Extract/Cmd_c06.v, harness/src/bin/c06.rs) decode the same terms from a script. *)
+Inductive cval : Set :=
+| CScalar (s : scalar)                       (* Value::from(x) *)
+| CArrPush (es : list cval)                  (* Array::new(); a.push(e) ...; Value::from(a) *)
+| CArrCollect (es : list cval)               (* es.into_iter().collect::<Value>() / ::<Array>() *)
+| CInlInsert (l : list (bytes * cval))       (* InlineTable::new(); t.insert(k, v) ...; Value::from(t) *)
+| CInlCollect (l : list (bytes * cval)).     (* l.into_iter().collect::<Value>() / ::<InlineTable>() *)
+
+Inductive citem : Set :=
+| CValue (v : cval)                          (* Item::Value(v) / value(v) *)
+| CTable (l : list (bytes * citem))          (* Table::new(); t.insert(k, item) ...; Item::Table(t) *)
+| CAot (ts : list (list (bytes * citem))).   (* ArrayOfTables::new(); a.push(t) ...; Item::ArrayOfTables(a) *)
+
+Fixpoint eval_value (c : cval) : value :=
+  match c with
+  | CScalar s => value_from s
+  | CArrPush es => fold_left array_push (map eval_value es) array_new
+  | CArrCollect es => array_from_iter (map eval_value es)
+  | CInlInsert l =>
+    fold_left (fun t kv => inline_insert_api t (fst kv) (snd kv))
+              (map (fun kv => (fst kv, eval_value (snd kv))) l) inline_new
+  | CInlCollect l => inline_from_iter (map (fun kv => (fst kv, eval_value (snd kv))) l)
+  end.
+
+Definition tbl_of (t0 : tbl) (l : list (bytes * item)) : tbl :=
+  fold_left (fun t kv => tbl_insert t (fst kv) (snd kv)) l t0.
+
+Fixpoint eval_item (c : citem) : item :=
+  match c with
+  | CValue v => IValue (eval_value v)
+  | CTable l => ITable (tbl_of tbl_new (map (fun kv => (fst kv, eval_item (snd kv))) l))
+  | CAot ts =>
+    fold_left aot_push
+              (map (fun l => tbl_of tbl_new (map (fun kv => (fst kv, eval_item (snd kv))) l)) ts) aot_new
+  end.
+
+(* the root table of DocumentMut::new() + inserts (from_table = false), or of
+   DocumentMut::from(Table::new() + inserts) (from_table = true) *)
+Definition eval_doc (from_table : bool) (l : list (bytes * citem)) : tbl :=
+  tbl_of (if from_table then tbl_new else doc_root_new) (map (fun kv => (fst kv, eval_item (snd kv))) l).
+
 (* ---- the trees the constructors reach -------------------------------------------------------
    Decor of a constructed value: untouched (`Formatted::new`, `Array::new`, `InlineTable::new`:
    default) or set by Array::push (("", "") for the first element, (" ", "") for the others). *)
